@@ -328,6 +328,7 @@ def run_kind(kind, vobl, prop, results, undecided, violations, checker_cmds, ass
         return
     assumptions.append('A1: token cursor < usize::MAX at every next_lexem (one ghost assume in next_lexem; machine arithmetic on the cursor treated as bounded)')
     assumptions.append('termination: proved by decreases clauses for the functions under contract; helper methods extracted without contract carry exec_allows_no_decreases_clause')
+    assumptions.append('T6: Lexem::clone / Expr::clone return equal values and Lexem == / != is structural equality (trusted impls replacing the derives)')
     assumptions.append('trusted (external_body, no body verified): ' + ', '.join(sorted(set(res['external_bodies']))))
     assumptions.append('assumed std contracts (assume_specification): ' + ', '.join(sorted(set(res['assume_specs']))))
     extra['dropped'].append('Engine V extraction drops: derives other than Clone/Copy/PartialEq/Eq, #[rustfmt::skip], cfg-gated enum variants '
